@@ -325,7 +325,7 @@ def _analyze_command(
                     and position > base_idx
                 ):
                     handler = get_handler(base)
-                    outer_result = handler.classify(HandlerContext(words[base_idx:]))
+                    outer_result = handler.classify(HandlerContext(words[base_idx:], cwd))
                     if outer_result.action != "allow":
                         inner_cmd = _get_word_value(word).strip("$()")
                         decisions.append(
@@ -489,7 +489,7 @@ def _analyze_simple_command(
     # "env -S 'rm x' -h") or an interpreter given a script ("bash x.sh -h") is not asking
     # for help: a trailing -h belongs to the inner program, so the handler decides.
     handler = get_handler(base)
-    result = handler.classify(HandlerContext(tokens)) if handler else None
+    result = handler.classify(HandlerContext(tokens, cwd)) if handler else None
     runs_inner = result is not None and (
         result.action == "delegate"
         or (len(tokens) > 2 and getattr(handler, "RUNS_SCRIPTS", False))
